@@ -131,20 +131,30 @@ def spec_model(wd, ev):
                        "invariants": ["TypeOK", "ExitIffSuccess", "ErrorsPrinted", "AllOrNothing", "SinksWhole", "RunOutput",
                                       "StreamsAppendOnly", "Progress", "Bounded"],
                        "assumes": ["UniverseWellFormed", "SinkIndependence", "NoStdNeutralForStdFree", "NoStdRejectsStdUsers"]})
-    # the stricter reading (an unwritable stdout must be reported) is a consistent contract too
-    st = vlib.tlc("MC_DriverLite", cfg="MC_Driver_strict.cfg", wd=wd, timeout=900, workers=2, tags=(), out_file=os.path.join(wd, "tlc-MC_Driver_strict.out"))
-    vlib.require_tlc_ok(st, "SyltDriver, StrictSink = TRUE")
-    ev.add("states", st.distinct)
-    ev.add("transitions", st.generated)
-    # spec-level negative controls: a defective machine must break the matching clause of the contract
+    # the stricter reading (an unwritable stdout must be reported) is a consistent contract too; and the spec-level negative
+    # controls: a defective machine must break the matching clause of the contract. Five small TLC runs, one worker each,
+    # four at a time (<= 4 TLC workers in total).
+    from concurrent.futures import ThreadPoolExecutor
+    aux = [("MC_Driver_strict.cfg", None), ("MC_Driver_faulty.cfg", "AllOrNothing"), ("MC_Driver_faulty2.cfg", "ErrorsPrinted"),
+           ("MC_Driver_faulty3.cfg", "ExitIffSuccess"), ("MC_Driver_faulty4.cfg", "StreamsAppendOnly")]
+
+    def run_aux(item):
+        cfg, _ = item
+        return vlib.tlc("MC_DriverLite", cfg=cfg, wd=wd, timeout=1500, workers=1, tags=(), out_file=os.path.join(wd, "tlc-" + cfg + ".out"))
+
+    with ThreadPoolExecutor(max_workers=4) as pool:
+        results = list(pool.map(run_aux, aux))
     broken = {}
-    for cfg, inv in (("MC_Driver_faulty.cfg", "AllOrNothing"), ("MC_Driver_faulty2.cfg", "ErrorsPrinted"),
-                     ("MC_Driver_faulty3.cfg", "ExitIffSuccess"), ("MC_Driver_faulty4.cfg", "StreamsAppendOnly")):
-        f = vlib.tlc("MC_DriverLite", cfg=cfg, wd=wd, timeout=900, workers=2, out_file=os.path.join(wd, "tlc-" + cfg + ".out"))
-        if f.timed_out or f.invariant_violated != inv:
+    for (cfg, inv), f in zip(aux, results):
+        if inv is None:
+            vlib.require_tlc_ok(f, "SyltDriver, StrictSink = TRUE")
+            ev.add("states", f.distinct)
+            ev.add("transitions", f.generated)
+        elif f.timed_out or f.invariant_violated != inv:
             vlib.tool_error("negative control accepted: the defective driver model does not violate %s (%s; log %s)" % (
                 inv, f.invariant_violated, f.log))
-        broken[inv] = True
+        else:
+            broken[inv] = True
     ev.set(spec_negative_controls=sorted(broken))
     return [base[b] for b in sorted(base)]
 
